@@ -49,15 +49,25 @@ def CM(v):
     return "/*x*/" if v["cm"] else ""
 
 
+def num_text(n, v):
+    """a number between -1 and 1 may be written without the leading zero or with trailing zeros"""
+    m = re.match(r"^(-?)0\.([0-9]+)$", n)
+    if m and v["num"] == "nolead":
+        return m.group(1) + "." + m.group(2)
+    if m and v["num"] == "trail0":
+        return n + "0"
+    return n
+
+
 def comp_text(c, v):
     t, x = c["t"], c["x"]
-    if t == "DIMENSION":
+    if t in ("DIMENSION", "PERCENTAGE"):
         m = re.match(r"^([-+]?[0-9.]+)(.*)$", x)
-        return m.group(1) + case(m.group(2), v)
+        return num_text(m.group(1), v) + case(m.group(2), v)
     if t == "NUMBER":
-        if x == "0.5":
-            return {"nolead": ".5", "trail0": "0.50"}.get(v["num"], x)
-        return x
+        return num_text(x, v)
+    if t == "COLOR_VALUE" and x.startswith("#") and v.get("hash") == "long" and len(x) == 4:
+        return "#" + "".join(c * 2 for c in x[1:])
     if t == "STRING":
         return v["quote"] + x[1:-1] + v["quote"]
     if t == "URI":
@@ -150,7 +160,7 @@ def rule_text(r, v, last=False):
     if k == "media":
         inner = "".join(W(v) + rule_text(x, v) for x in r["rules"]) + W(v)
         return case("@media", v) + W(v, True) + (W(v) + "," + W(v)).join(r["queries"]) + block(inner, v, last)
-    if k == "unknown":
+    if k in ("unknown", "variables"):
         return r["text"]
     raise ValueError(k)
 
@@ -218,7 +228,8 @@ def project_rule(r):
     if t == "MARGIN_RULE":
         return {"k": "margin", "name": r.margin, "body": body_of(r.style)}
     if t == "VARIABLES_RULE":
-        return {"k": "variables", "text": re.sub(r"\s+", " ", r.cssText).strip()}
+        return {"k": "variables", "text": re.sub(r"\s+", " ", r.cssText).strip(),
+                "vars": [{"name": n, "value": comps(css.PropertyValue(cssText=r.variables.getVariableValue(n)))} for n in r.variables.keys()]}
     return {"k": "?" + t}
 
 
